@@ -71,6 +71,18 @@ def tier_mutations(t, vals):
         for a in vals:
             for mode in ("replace", "merge", "error"):
                 M.append((("insert", a, mode), lambda a=a, mode=mode: t.insertEntry(Point(a, "n"), mode, "silence")))
+    # (appended last so that the indices of the mutations above stay what they were) deleteEntry handed an entry that EQUALS a stored one without
+    # being bit-identical (one time a unit in the last place off - the library's entry equality is tolerant): the stored entry goes, like above
+    import math
+    for i, e in enumerate(t.entries):
+        if isI and e.end != 0:
+            n = Interval(e.start, math.nextafter(e.end, math.inf), e.label)
+        elif not isI and e.time != 0:
+            n = Point(math.nextafter(e.time, math.inf), e.label)
+        else:
+            continue
+        if n == e and tuple(n) != tuple(e):
+            M.append((("delete-nearly-equal", i), lambda n=n: t.deleteEntry(n)))
     return M
 
 
